@@ -73,6 +73,25 @@ Theorem c14_classes_denote_style :
        fst span = match snd (fst (fst (svg_drawn t s0))) with Some col => [svg_name_of svg_bg_prefix col] | None => [] end).
 Proof. exact svg_classes_denote_style. Qed.
 
+(* The same against the CONCRETE specification of Spec/SvgSpec (the oracle the
+   correspondence compares the real output with): a foreground span's classes are
+   svg_spec_fg_classes of its run's style under the configured defaults -- drawn
+   foreground (invert swapped against the defaults) as fg-<name> / fg-ansi256-NNN /
+   fg-rgb-RRGGBB, underline colour, then the documented effect classes (none for
+   INVERT and BLINK); a background span carries svg_spec_bg_class, or nothing. *)
+Theorem c14_classes_denote_spec_style :
+  forall t input d runs p c,
+  svg_colour_ok (svg_t_fg t) = true -> svg_colour_ok (svg_t_bg t) = true ->
+  extract_next input parser_new capture_default = Some (runs, p, c) -> svg_doc t input = Some d ->
+  forall l, In l (svg_d_lines d) ->
+  (forall span, In span (svg_l_fg l) ->
+     exists s0 t0, In (s0, t0) runs /\ svg_sub (snd span) t0 /\ snd span <> [] /\
+       fst span = svg_spec_fg_classes (svg_t_fg t) (svg_t_bg t) s0)
+  /\ (forall bg span, svg_l_bg l = Some bg -> In span bg ->
+     exists s0 t0, In (s0, t0) runs /\ svg_sub (snd span) t0 /\ snd span <> [] /\
+       fst span = match svg_spec_bg_class (svg_t_fg t) (svg_t_bg t) s0 with Some cls => [cls] | None => [] end).
+Proof. exact svg_classes_denote_spec_style. Qed.
+
 (* The canvas height is line_height for every line plus the padding on both sides,
    and there are as many lines as the visible text has. *)
 Theorem c14_height_counts_lines :
